@@ -65,55 +65,17 @@ theorem field_eq_some {S : SchemaView} {T name : String} {fd : FieldDef}
 
 /-! ### `make_edge_parameters` -/
 
-mutual
-/-- Does the value contain an enum literal (N-2's trigger)? -/
-def FV.hasEnum : FV → Bool
-  | .enum _ => true
-  | .list items => FV.hasEnumList items
-  | _ => false
-def FV.hasEnumList : List FV → Bool
-  | [] => false
-  | x :: xs => FV.hasEnum x || FV.hasEnumList xs
-end
-
-/-- Does some argument of the field contain an enum literal? -/
-def argsHaveEnum (args : List (String × FV)) : Bool := args.any (fun kv => kv.2.hasEnum)
-
-mutual
-theorem isValidValue_none (t : FTy) : ∀ v : FV, t.isValidValue v = none → v.hasEnum = true
-  | .null, h => by simp [FTy.isValidValue] at h
-  | .int _, h => by simp [FTy.isValidValue] at h
-  | .float, h => by simp [FTy.isValidValue] at h
-  | .str _, h => by simp [FTy.isValidValue] at h
-  | .bool _, h => by simp [FTy.isValidValue] at h
-  | .enum _, _ => rfl
-  | .list items, h => by
-    unfold FTy.isValidValue at h
-    split at h
-    · rename_i inner _
-      simp only [FV.hasEnum]
-      exact allValid_none inner items h
-    · cases h
-theorem allValid_none (t : FTy) : ∀ l : List FV, FTy.allValid t l = none → FV.hasEnumList l = true
-  | [], h => by simp [FTy.allValid] at h
-  | x :: xs, h => by
-    unfold FTy.allValid at h
-    simp only [FV.hasEnumList, Bool.or_eq_true]
-    split at h
-    · exact Or.inr (allValid_none t xs h)
-    · cases h
-    · rename_i hx
-      exact Or.inl (isValidValue_none t x hx)
-end
-
-/-- N-2's site together with its trigger: an enum literal among the field's arguments. -/
-def EnumSite (specified : List (String × FV)) (s : Site) : Prop :=
-  s = .enumArgument ∧ argsHaveEnum specified = true
+/- History: until the repair of N-2 / F-C10-2 `is_valid_value` hit `unimplemented!` on an enum literal
+(`FTy.isValidValue … = none`), this section defined `FV.hasEnum` / `argsHaveEnum` ("some argument of
+the field contains an enum literal"), proved `isValidValue_none : t.isValidValue v = none → v.hasEnum`
+and showed that `make_edge_parameters` panics only at `.enumArgument` and only then (`EnumSite`); a
+Boolean flag carried "an enum literal occurs below" up to `compile_enumArgument`.  The type check is
+total now, so `make_edge_parameters` has no reachable panic site at all. -/
 
 theorem edgeParametersLoop_sat (specified : List (String × FV)) (params : List ParamDef) :
     ∀ (names : List String) (errs : List FrontErr),
       (params.map (·.name)).Nodup → (∀ p ∈ params, p.name ∉ names) →
-      Sat (EnumSite specified) (edgeParametersLoop specified params names errs)
+      Sat (fun _ => False) (edgeParametersLoop specified params names errs)
         (fun _ => True) := by
   induction params with
   | nil => intro names errs _ _; trivial
@@ -125,15 +87,7 @@ theorem edgeParametersLoop_sat (specified : List (String × FV)) (params : List 
     refine Sat.bind (P := fun _ => True) ?_ fun r _ => ?_
     · split
       · split <;> trivial
-      · rename_i k value hfind
-        split
-        · rename_i hnone
-          refine ⟨rfl, ?_⟩
-          have hmem := List.mem_of_find?_eq_some hfind
-          simp only [argsHaveEnum, List.any_eq_true]
-          exact ⟨(k, value), hmem, isValidValue_none _ _ hnone⟩
-        · trivial
-        · trivial
+      · split <;> trivial
     · split
       · split
         · rename_i hc
@@ -149,7 +103,7 @@ theorem edgeParametersLoop_sat (specified : List (String × FV)) (params : List 
 
 theorem makeEdgeParameters_sat (edgeDef : FieldDef) (specified : List (String × FV))
     (hnd : (edgeDef.params.map (·.name)).Nodup) :
-    Sat (EnumSite specified) (makeEdgeParameters edgeDef specified) (fun _ => True) := by
+    Sat (fun _ => False) (makeEdgeParameters edgeDef specified) (fun _ => True) := by
   unfold makeEdgeParameters
   exact Sat.bind (edgeParametersLoop_sat specified edgeDef.params [] [] hnd (by simp))
     fun _ _ => trivial
@@ -187,9 +141,9 @@ theorem getEdgeDefinition_of_field {S : SchemaView} {T name : String} {fd : Fiel
 
 /-! ### the loops of `make_query_component` -/
 
-/-- The sites inputs can reach inside a component: F-12, N-6 (filters), and N-2 when (`r`) some
-edge argument contains an enum literal. -/
-def CompSite (r : Bool) (s : Site) : Prop := FilterSite s ∨ (s = .enumArgument ∧ r = true)
+/-- The sites inputs can reach inside a component: those of the filters (N-6; F-12 is repaired).
+(N-2, the enum-valued edge argument, was one more until its repair.) -/
+def CompSite (s : Site) : Prop := FilterSite s
 
 theorem verticesLoop_sat (S : SchemaView) (props : List PropRec) (vs : List VertexRec) :
     ∀ (st : St) (errs : List FrontErr) (done : List (Vid × String)) (uses : List (String × FTy)),
@@ -246,8 +200,7 @@ def EdgeOk (S : SchemaView) (irVertices : List (Vid × String)) (e : EdgeRec) : 
 theorem edgesLoop_sat {S : SchemaView} (hS : ValidSchemaView S) (irVertices : List (Vid × String))
     (es : List EdgeRec) :
     ∀ (errs : List FrontErr), (∀ e ∈ es, EdgeOk S irVertices e) →
-      Sat (fun s => s = .enumArgument ∧ ∃ e ∈ es, argsHaveEnum e.conn.arguments = true)
-        (edgesLoop S irVertices errs es) (fun _ => True) := by
+      Sat (fun _ => False) (edgesLoop S irVertices errs es) (fun _ => True) := by
   induction es with
   | nil => intro errs _; trivial
   | cons e rest ih =>
@@ -257,11 +210,9 @@ theorem edgesLoop_sat {S : SchemaView} (hS : ValidSchemaView S) (irVertices : Li
     unfold edgesLoop
     rw [hfind]
     simp only [getEdgeDefinition_of_field hfield, bind_ok]
-    refine Sat.bind ((makeEdgeParameters_sat fd _ (hS.paramsDistinct t ht fd hfd)).monoK
-      (fun _ h => ⟨h.1, e, List.mem_cons_self .., h.2⟩)) fun _ _ => ?_
+    refine Sat.bind (makeEdgeParameters_sat fd _ (hS.paramsDistinct t ht fd hfd)) fun _ _ => ?_
     refine Sat.bind (P := fun _ => True) ?_ fun _ _ =>
-      (ih _ fun e' he' => hok e' (List.mem_cons_of_mem _ he')).monoK
-        (fun _ h => ⟨h.1, by obtain ⟨e', he', h'⟩ := h.2; exact ⟨e', List.mem_cons_of_mem _ he', h'⟩⟩)
+      (ih _ fun e' he' => hok e' (List.mem_cons_of_mem _ he'))
     split
     · trivial
     · refine Sat.of_noPanic (getRecurseImplicitCoercion_noPanic hS ?_)
